@@ -19,7 +19,7 @@ USERINFO = [b"", b"u@", b"u:p@", b":p@", b"u:@", b"u:p:q@", b"%41b@", b"u%40x:p%
 HOSTS = [b"example.com", b"ex%61mple.com", b"8.8.4.4", b"0x7f.1", b"2130706433", b"%31.1.1.1", b"[::1]", b"[0:0:0:0:0:0:0:1]", b"%5B::1%5D",
          b"a-b.example.org", b"010.1.1.1", b"EXAMPLE.COM", b"[::ffff:1.2.3.4]"]
 PORTS = [b"", b":", b":80", b":65535", b":00080"]
-SEGS = [b"a", b".", b"..", b"%2e", b"%2E%2e", b"%2F", b"%41", b"", b"b%3Fc"]
+SEGS = [b"a", b".", b"..", b"%2e", b"%2E%2e", b"%2F", b"%41", b"", b"b%3Fc", b"%2%45%2%65", b"%2%65"]
 QUERIES = [b"", b"?", b"?q=%41", b"?a/b?c%2Fd"]
 FRAGS = [b"", b"#", b"#f%41", b"#/route#anchor", b"#a?b#c%41"]
 EMBED = [(b"", b""), (b"see '", b"' now"), (b"x(", b") y"), (b"\x01\x02", None)]
